@@ -9,8 +9,8 @@ def run(ctx):
     r = ctx.model_check("RingAbsMC.tla", "RingAbsMC.cfg", workers=4)
     ctx.check_vacuity(r, ["Open", "AWrite", "ARead", "APeek", "Reclaim", "Close"])
     hs = []
-    for S, nosem in ([(4083, 1), (100, 0)] if q else [(4083, 1), (4083, 0), (4084, 1), (100, 0), (100, 1), (8179, 0)]):
-        hs += rings.gen(ctx, S, True, nosem, 3 if q else 4, "bfs", 0, True, "ox%d-%d" % (S, nosem))
+    for S, nosem, d in ([(4083, 1, 3), (100, 0, 3)] if q else [(4083, 1, 4), (4083, 0, 3), (4084, 1, 3), (100, 0, 4), (100, 1, 3), (8179, 0, 3)]):
+        hs += rings.gen(ctx, S, True, nosem, d, "bfs", 0, True, "ox%d-%d" % (S, nosem))
     nx = len(hs)
     sizes = [1, 17, 4082, 4083, 4084, 4085, 8179, 8180, 12288] if q else \
             [1, 2, 17, 100, 4070, 4082, 4083, 4084, 4085, 4086, 4087, 4088, 8178, 8179, 8180, 8181, 8183, 12275, 12288, 65536]
